@@ -391,13 +391,6 @@ def corr_thresholds(ctx, cub, rng):
                          witness={"shape": [3, 4, 2][:dim], "offdiag": repr(off), "which": which})
 
 
-def corr_r3(ctx, cub, rng):
-    corr_gen_interp(ctx, cub, rng)
-    corr_gen_ctor(ctx, cub, rng)
-    corr_gen_tensor(ctx, cub, rng)
-    corr_thresholds(ctx, cub, rng)
-
-
 # ----------------------------------------------------------------------------------------------
 # oracle: classes 5, 8, 9, 10, 12
 # ----------------------------------------------------------------------------------------------
@@ -723,7 +716,5 @@ def oracle_at_r3(ctx, failure):
     return False
 
 
-def oracle_r3(ctx, cub, rng, big):
-    b = _b()
-    for f in (or_method_order, or_negative_axes, or_special_points, or_far_and_scaled, or_handed_out):
-        b._robust(ctx, f, cub, rng, big)
+ORACLE_PARTS = (or_method_order, or_negative_axes, or_special_points, or_far_and_scaled, or_handed_out)
+CORR_PARTS = (corr_gen_interp, corr_gen_ctor, corr_gen_tensor, corr_thresholds)
